@@ -274,6 +274,25 @@ func fsFromState(s *fsState, record bool) *jfs {
 	return &jfs{st: s, nextIno: max, record: record}
 }
 
+// deepCopy returns the current namespace and contents (what a process kill at
+// this moment leaves behind), sharing nothing with the live filesystem.
+func (f *jfs) deepCopy() *fsState {
+	f.mu.Lock()
+	defer f.mu.Unlock()
+	out := newState()
+	for d := range f.st.dirs {
+		out.dirs[d] = true
+	}
+	ino := 0
+	for p, n := range f.st.files {
+		ino++
+		nn := &inode{ino: ino, data: append([]byte(nil), n.data...), synced: int64(len(n.data))}
+		out.files[p] = nn
+		out.inodes[ino] = nn
+	}
+	return out
+}
+
 var _ kfake.VerifFS = (*jfs)(nil)
 
 // Len is the number of journaled ops so far.
